@@ -248,8 +248,23 @@ class ScanWorld:
             e_.path_state['tokens'].append((a[0], a[2], a[3]))
             return Opaque('Token', 'token')
         m(r'^(compiler::)?(ir::)?(token::)?Token::new$', m_token_new)
-        e.allow_havoc(r'^(std|alloc|core)::fmt::', r'Arguments::', r'^format$', r'^must_use$', r'^(std::string::|alloc::string::)?String::\w+$',
-                      r'^(core::)?num::<impl u32>::from_str_radix$', r'^(std::char::|core::char::)?(convert::)?from_u32$', r'^(core::)?char::methods::<impl char>::from_u32$',
+        # u32::from_str_radix: any result, but it can only succeed on hexadecimal digits (an optional leading sign included): a line
+        # break or any other character inside the braces makes it fail
+        def m_from_str_radix(e_, a, c):
+            r = e_.fresh(norm_ty(c.dest_ty), e_.fresh_name('from_str_radix'))
+            sub = to_sub(e_, a[0])
+            if sub is not None and isinstance(r, EnumV) and not isinstance(r.tag, int):
+                conds = []
+                for k in range(len(sub.src.chars)):
+                    ch = sub.src.chars[k]
+                    inside = z3.And(z3.UGE(sub.src.off[k], sub.start), z3.ULT(sub.src.off[k], sub.end), z3.ULT(bv(k, 64), sub.src.n))
+                    hexd = z3.Or(z3.And(z3.UGE(ch, ord('0')), z3.ULE(ch, ord('9'))), z3.And(z3.UGE(ch, ord('a')), z3.ULE(ch, ord('f'))),
+                                 z3.And(z3.UGE(ch, ord('A')), z3.ULE(ch, ord('F'))), ch == ord('+'))
+                    conds.append(z3.Implies(inside, hexd))
+                e_.add_constraint(z3.Implies(r.tag == 0, z3.And(*conds)))
+            return r
+        m(r'^(core::)?num::<impl u32>::from_str_radix$', m_from_str_radix)
+        e.allow_havoc(r'^(std|alloc|core)::fmt::', r'Arguments::', r'^format$', r'^must_use$', r'^(std::string::|alloc::string::)?String::\w+$', r'^(std::char::|core::char::)?(convert::)?from_u32$', r'^(core::)?char::methods::<impl char>::from_u32$',
                       r'^<.* as (std::string::|alloc::string::)?ToString>::to_string$', r'^(source::)?(files::)?LineOffsets::new$')
         self.fnew = P.lookup('compiler::scanner::Scanner::new') or P.lookup('Scanner::new')
         self.fscan = P.lookup('compiler::scanner::Scanner::scan_token') or P.lookup('Scanner::scan_token')
@@ -261,7 +276,7 @@ def _scan_obligation(res, prefix, k, label):
     W = ScanWorld()
     e, P = W.e, W.P
     res.bounds = {'source text': f'{prefix!r} followed by 0..{k} arbitrary Unicode characters (any scalar value each)', 'tokens': f'<= {len(prefix) + k + 1}'}
-    res.assumptions = ['u32::from_str_radix / char::from_u32 / String building summarised (their results are arbitrary)']
+    res.assumptions = ['u32::from_str_radix succeeds only on hexadecimal digits, otherwise its result is arbitrary; char::from_u32 / String building summarised (arbitrary results)']
 
     def path(e):
         e.path_state['tokens'] = []
